@@ -20,12 +20,14 @@ TabOk(p) ==
           CrcTabled(P, <<x, 255 - x>>, W8(x), W8(85)) = CrcBitwise(P, <<x, 255 - x>>, W8(x), W8(85))
     /\ {T[i][1] : i \in 1..256} = 0..255
 \* "back", p, r: CrcBackByte inverts the forward byte step for registers 16r..16r+15 and every byte
-BackOk(P, T, reg, byte) == CrcBackByte(P, T, CrcByteTable(T, reg, byte), byte) = reg
+BackOk(P, T, reg, byte) == LET a == CrcByteTable(T, reg, byte)
+                           IN CrcBackByte(P, T, a, byte) = reg /\ CrcBackByteBitwise(P, a, byte) = reg
 BackAll(p, r) ==
   LET P == W8(p)  T == CrcTable(P) IN
     \A g \in (16*r)..((16*r) + 15) : \A x \in 0..255 :
        /\ BackOk(P, T, W8(g), x)
-       /\ CrcBackByte(P, T, CrcByteBitwise(P, W8(g), x), x) = W8(g)
+       /\ CrcBackByteBitwise(P, CrcByteBitwise(P, W8(g), x), x) = W8(g)
+       /\ CrcBackBit(P, CrcStepBit(P, W8(g), x % 2), x % 2) = W8(g)
 Cases == {[t |-> "tab", p |-> p, r |-> 0] : p \in 128..255}
          \cup {[t |-> "back", p |-> p, r |-> r] : p \in {140, 224}, r \in 0..15}      \* 0x8C (MAXIM-DOW), 0xE0 (ROHC)
 VARIABLES c, done
